@@ -323,6 +323,19 @@ theorem protocol_order {α : Type} {cfg : Cfg} {P : Params α} {rank : Key → N
       exact ⟨ext, s'.st, true, by simp [hlog], hmid, hpre ▸ hB.preNodup, hpost ▸ hB.postNodup, hsub, by simp,
         by intro hb; cases hb⟩
 
+open Dask.C01 in
+/-- `protocol_order` without the `StartOK` hypothesis -/
+theorem protocol_order_full {α : Type} {cfg : Cfg} {P : Params α} {rank : Key → Nat} {st0 : State α}
+    (h : Hyp cfg rank) (hG : GraphOK cfg.g cfg.results) (hst : startState cfg P = .ok st0)
+    (choices : List Nat) (hbad : (getAsync cfg P choices).outcome ≠ .error .badChoice) :
+    ∃ mid st b, (getAsync cfg P choices).log =
+        [(Ev.start, ({} : State α)), (Ev.startState, st0)] ++ mid ++ [(Ev.finish b, st)] ∧
+      (∀ e ∈ mid, midEv e.1 = true) ∧ (preKeys mid).Nodup ∧ (postKeys mid).Nodup ∧
+      (∀ k, k ∈ postKeys mid → k ∈ preKeys mid) ∧
+      (b = false ↔ (getAsync cfg P choices).outcome = .ok .done) ∧
+      (b = false → ∀ k, k ∈ preKeys mid ↔ k ∈ postKeys mid) :=
+  protocol_order h hst (C01.startOK_of_eq h hG hst) choices hbad
+
 /-! ## non-vacuity / witnesses -/
 /-- the former counterexample `with cb: (with cb: pass); get`: on the repaired code the get sees `cb` -/
 example : (exec (.withObj 7 (.seq (.withObj 7 .skip) .get)) {}).toOption.map (·.2) = some [[7]] := by decide
